@@ -419,35 +419,40 @@ def _keys_behind(prog, tr, fn, op, depth=0, seen=None):
     """JSON keys whose looked-up value an operand derives from (`obj.get("key")`, `obj["key"]`)."""
     from analysis.defuse import du
     from analysis.tables import const_strings_of_operand
+    # a worklist over the locals the operand is defined from: every local is visited once (`seen`), so the walk ends
+    # without a depth bound - a bound combined with the shared `seen` set made the answer depend on the ORDER of the
+    # arguments (a long chain explored first marked the locals of the short one as seen and was then cut off), and a
+    # spliced-in helper lengthens every chain by its parameter copies
     seen = seen if seen is not None else set()
     out = set()
-    if op.get('k') not in ('copy', 'move') or depth > 25:
-        return out
-    l = op['pl']['l']
-    if l in seen:
-        return out
-    seen.add(l)
-    for df in du(fn).defs.get(l, []):
-        if df['kind'] in ('assign', 'partial'):
-            rv = df['rv']
-            for k in ('op', 'a', 'b'):
-                o = rv.get(k)
-                if isinstance(o, dict):
-                    out |= _keys_behind(prog, tr, fn, o, depth + 1, seen)
-            for o in rv.get('ops', []):
-                out |= _keys_behind(prog, tr, fn, o, depth + 1, seen)
-            if 'pl' in rv:
-                out |= _keys_behind(prog, tr, fn, {'k': 'copy', 'pl': rv['pl']}, depth + 1, seen)
-        elif df['kind'] in ('call', 'partial_call'):
-            t = df['term']
-            nm = callee_short(t).rsplit('::', 1)[-1]
-            if nm in ('get', 'index', 'get_mut', 'remove') and len(t['args']) >= 2:
-                ks = set(const_strings_of_operand(fn, t['args'][1], tr))
-                if ks:
-                    out |= ks
-                    continue
-            for a in (t['args'] if nm in ('from_json', 'new') else t['args'][:1]):
-                out |= _keys_behind(prog, tr, fn, a, depth + 1, seen)
+    work = [op]
+    while work:
+        o_ = work.pop()
+        if not isinstance(o_, dict) or o_.get('k') not in ('copy', 'move'):
+            continue
+        l = o_['pl']['l']
+        if l in seen:
+            continue
+        seen.add(l)
+        for df in du(fn).defs.get(l, []):
+            if df['kind'] in ('assign', 'partial'):
+                rv = df['rv']
+                for k in ('op', 'a', 'b'):
+                    o = rv.get(k)
+                    if isinstance(o, dict):
+                        work.append(o)
+                work.extend(rv.get('ops', []))
+                if 'pl' in rv:
+                    work.append({'k': 'copy', 'pl': rv['pl']})
+            elif df['kind'] in ('call', 'partial_call'):
+                t = df['term']
+                nm = callee_short(t).rsplit('::', 1)[-1]
+                if nm in ('get', 'index', 'get_mut', 'remove') and len(t['args']) >= 2:
+                    ks = set(const_strings_of_operand(fn, t['args'][1], tr))
+                    if ks:
+                        out |= ks
+                        continue
+                work.extend(t['args'] if nm in ('from_json', 'new') else t['args'][:1])
     return out
 
 
@@ -461,6 +466,29 @@ def _ctor_param_fields(prog, tr, g):
                     if a.startswith('arg:'):
                         out.setdefault(int(a[4:]), set()).add('%s::%s' % (T, n))
     return out
+
+
+CONTAINER_ADDS = ('insert', 'push', 'push_back', 'push_front', 'extend', 'append')
+
+
+def flow_loader(prog, tr):
+    """The function that restores the parked flows of a save, found by what it does: it inserts Flow values decoded by
+    Flow::from_json into StoryState::named_flows (a map String -> Flow).  On the confirmed tree that is
+    StoryState::load_json_obj; a new single-caller helper is spliced into it before the rules run (Program.normalise),
+    a helper that is not (public, or called from two places) is found here.  Falls back to the function of that name
+    when the role has no or several holders."""
+    from rules.c10 import _is_flow_map
+    found = []
+    for f in sorted(prog.fns.values(), key=lambda f_: f_.p):
+        if f.crate != 'bladeink' or f.kind == 'closure' or '::tests::' in f.p:
+            continue
+        for bb, t in f.calls():
+            if callee_short(t) == 'HashMap::insert' and len(t['args']) >= 3 and (
+                    'field:StoryState::named_flows' in tr.prov(f, t['args'][0]) or _is_flow_map(f, t)) \
+                    and 'call:Flow::from_json' in tr.prov(f, t['args'][2]):
+                found.append(f)
+                break
+    return found[0] if len(found) == 1 else prog.fn('StoryState::load_json_obj')
 
 
 def _reader_map(prog, tr, fn):
@@ -477,6 +505,16 @@ def _reader_map(prog, tr, fn):
                             out.setdefault(k, set()).add(f)
         for bb, t in g.calls():
             h = prog.fns.get(callee(t))
+            if h is None and callee_short(t).rsplit('::', 1)[-1] in CONTAINER_ADDS and len(t['args']) >= 2:
+                # a collection-valued field is read back entry by entry: `self.f.insert(k, decoded)` / `.push(decoded)`
+                # puts what is behind the key into field f just as `self.f = decoded` does
+                fs = {a[6:] for a in tr.prov(g, t['args'][0]) if a.startswith('field:')
+                      and not a.startswith(('field:Option', 'field:Result', 'field:ControlFlow'))}
+                if fs:
+                    for a in t['args'][1:]:
+                        for k in _keys_behind(prog, tr, g, a):
+                            out.setdefault(k, set()).update(fs)
+                continue
             if h is None or h.crate != 'bladeink':
                 continue
             pf = _ctor_param_fields(prog, tr, h)
